@@ -7,7 +7,7 @@ namespace Zeep
 structure QName where
   ns : Option String
   name : String
-deriving Repr, DecidableEq, BEq, Inhabited
+deriving Repr, DecidableEq, Inhabited
 
 inductive Node where
   | mk (tag : QName) (attrs : List (QName × String)) (text : Option String) (kids : List Node)
